@@ -443,7 +443,9 @@ def process(job, harness, env, seed, tier_quick):
     kmax = depth - 40
     n = (len(mono) - 1) if mono is not None else (len(job["sec"]) if job["kind"] == "S" else len(job["cheb"]) - 1)
     cmds = []            # (line, meta)
-    if not job.get("radii_only"):
+    if job.get("fixed_cmds"):
+        cmds = [(c, meta_of_cmd(c)) for c in job["fixed_cmds"]]
+    elif not job.get("radii_only"):
         for tag, z in gen_points(job, roots, crits, rng, min(kmax, 60)):
             if dbl(z[0]) == z[0] and dbl(z[1]) == z[1]:
                 cmds.append(("NF %s %s" % (hq(z[0]), hq(z[1])), {"prim": "fnewton", "tag": tag, "z": z}))
@@ -455,7 +457,7 @@ def process(job, harness, env, seed, tier_quick):
         for prec in job.get("precs", [64]):
             for tag, z in gen_mpoints(job, roots, crits, rng, prec, kmax):
                 cmds.append(("NM %d %s %s" % (prec, hq(z[0]), hq(z[1])), {"prim": "mnewton", "tag": tag, "z": z, "prec": prec}))
-    if not job.get("newton_only"):
+    if not job.get("newton_only") and not job.get("fixed_cmds"):
         for tag, zs in distinct_sets(job, n, roots, mult, rng, min(kmax, 50)):
             flat = " ".join("%s %s" % (hq(z[0]), hq(z[1])) for z in zs)
             cmds.append(("RF " + flat, {"prim": "fradii", "tag": tag, "zs": zs}))
@@ -593,6 +595,19 @@ def diagnose_newton(job, rec, p):
     except Exception:
         return None
     return None
+
+
+def meta_of_cmd(c):
+    """rebuild the bookkeeping of a stored harness command (replay)"""
+    t = c.split(); q = lambda x: Fr(int(x.split("/")[0], 16), int(x.split("/")[1], 16) if "/" in x else 1)
+    if t[0] == "NF": return {"prim": "fnewton", "tag": "replay", "z": (q(t[1]), q(t[2]))}
+    if t[0] == "ND": return {"prim": "dnewton", "tag": "replay", "z": (q(t[1]) * pow2(int(t[2])), q(t[3]) * pow2(int(t[4])))}
+    if t[0] == "NM": return {"prim": "mnewton", "tag": "replay", "prec": int(t[1]), "z": (q(t[2]), q(t[3]))}
+    if t[0] == "RF": return {"prim": "fradii", "tag": "replay", "zs": [(q(t[1 + 2 * i]), q(t[2 + 2 * i])) for i in range((len(t) - 1) // 2)]}
+    if t[0] == "RD": return {"prim": "dradii", "tag": "replay", "zs": [(q(t[1 + 4 * i]) * pow2(int(t[2 + 4 * i])), q(t[3 + 4 * i]) * pow2(int(t[4 + 4 * i]))) for i in range((len(t) - 1) // 4)]}
+    if t[0] == "RM": return {"prim": "mradii", "tag": "replay", "prec": int(t[1]), "zs": [(q(t[2 + 2 * i]), q(t[3 + 2 * i])) for i in range((len(t) - 2) // 2)]}
+    if t[0] == "SR": return {"prim": "set_radii", "tag": "replay", "phase": t[1], "prec": int(t[2])}
+    raise ValueError("unknown command " + c)
 
 
 def split_dpe(z):
@@ -795,7 +810,7 @@ def run(ctx):
         for j in jobs:
             for key in ("mono", "sec", "cheb", "points", "mpoints", "sets"):
                 if j.get(key) is not None: j[key] = unfr(j[key])
-            j["replay_text"] = rp.get("text")
+            if rp.get("cmd"): j["fixed_cmds"] = [rp["cmd"]]
     else:
         cases = G.standard_cases(rng, ctx.pick(44, 400), maxdeg=ctx.pick(12, 20))
         jobs = [job_of_case(c) for c in cases if c["degree"] <= ctx.pick(14, 40)]
